@@ -199,7 +199,8 @@ class SynthWiki:
                 e["fullurl"] = "http://wiki.example/wiki/" + page["title"].replace(" ", "_")
             if "contributors" in props:
                 c = self.contributors.get(page["title"], {"named": ["Editor"], "bots": [], "anon": 0})
-                e["contributors"] = [{"userid": i + 1, "name": n} for i, n in enumerate(c["named"] + c["bots"])]
+                if c["named"] or c["bots"]:  # (MediaWiki omits the key for a page without registered contributors)
+                    e["contributors"] = [{"userid": i + 1, "name": n} for i, n in enumerate(c["named"] + c["bots"])]
                 if c["anon"]:
                     e["anoncontributors"] = c["anon"]
         # result limits with old-style continuation: the limit counts items over all pages of the request, in page order
